@@ -53,6 +53,7 @@ pub fn run(dir: PathBuf, clock: Option<u64>, gate_gc: bool, http: bool, serve: b
         verif::set_gates(&["gc"]);
     }
     let store = Store::new(dir.clone());
+    let eph_seen: std::sync::Arc<std::sync::Mutex<Vec<Value>>> = Default::default();
     let sock = dir.join("sock");
     let mut ready = json!({"ready": true});
     if http {
@@ -123,6 +124,20 @@ pub fn run(dir: PathBuf, clock: Option<u64>, gate_gc: bool, http: bool, serve: b
         }
         verif::set_log(false);
         let _ = verif::take_log();
+        // ephemeral frames are never stored: what the processors emit with that TTL is seen only by followers. One
+        // follower of all contexts, subscribed before the first client action, keeps them for the runner (`eph_seen`).
+        let (store2, seen) = (store.clone(), eph_seen.clone());
+        let (tx_ready, rx_ready) = std::sync::mpsc::channel::<()>();
+        rt.spawn(async move {
+            let mut rx = store2.read(ReadOptions::builder().follow(FollowOption::On).tail(true).build()).await;
+            let _ = tx_ready.send(());
+            while let Some(f) = rx.recv().await {
+                if f.ttl == Some(xs::store::TTL::Ephemeral) && f.topic != "xs.threshold" && f.topic != "xs.pulse" {
+                    seen.lock().unwrap().push(frame_json(&f));
+                }
+            }
+        });
+        let _ = rx_ready.recv_timeout(Duration::from_secs(5));
     }
     let stdin = std::io::stdin();
     let stdout = std::io::stdout();
@@ -142,6 +157,12 @@ pub fn run(dir: PathBuf, clock: Option<u64>, gate_gc: bool, http: bool, serve: b
         let op = req["op"].as_str().unwrap_or("");
         // a panic inside the code under test is an observation, not a harness failure
         nth += 1;
+        if op == "eph_seen" {
+            let v: Vec<Value> = std::mem::take(&mut *eph_seen.lock().unwrap());
+            writeln!(out, "{}", json!({"frames": v})).unwrap();
+            out.flush().unwrap();
+            continue;
+        }
         if http && op == "slow_open" {
             let first = base64::prelude::BASE64_STANDARD.decode(req["first"].as_str().unwrap_or("")).unwrap_or_default();
             slow_conn = crate::http::slow_open(&sock, req["target"].as_str().unwrap_or("/"), &first);
